@@ -132,7 +132,7 @@ def check(ctx):
     units += [("hist", k, f) for k in ("int", "str") for f in ("name", "column")]
     units += [("hist", "int", f, "recycle") for f in ("name", "column")]
     units += [("big", p) for p in range(4)]
-    units += [("extra", f) for f in ("skew", "args", "dupnames", "twice", "self", "expectstr", "namesake", "dupkeys", "typednone", "large")]
+    units += [("extra", f) for f in ("skew", "args", "dupnames", "twice", "self", "expectstr", "namesake", "dupkeys", "typednone", "large", "keyorder")]
     agg = hashseeds.run(ctx, "props.c10", units)
     agg.notes["bound"] = "see joinspace.plan_units"
     agg.notes["exhaustive"] = True
@@ -143,7 +143,7 @@ def coverage_goals(ctx, agg):
     return [k for k in ("join-agree-nontrivial", "full_join-agree-nontrivial", "hist-agree") if agg.outcomes.get(k, 0) < 100]
 
 
-_FAMILY_UNITS = {'skewed sizes': 'skew', 'caller-owned key lists': 'args', 'repeated column name': 'dupnames', 'two joins on the same table objects': 'twice', 'self-join': 'self', 'expect string built at run time': 'expectstr', "key vector that carries a column's name": 'namesake', 'several different duplicated keys': 'dupkeys', 'typed key column holding only None after a cut': 'typednone', 'large tables': 'large'}
+_FAMILY_UNITS = {'skewed sizes': 'skew', 'caller-owned key lists': 'args', 'repeated column name': 'dupnames', 'two joins on the same table objects': 'twice', 'self-join': 'self', 'expect string built at run time': 'expectstr', "key vector that carries a column's name": 'namesake', 'several different duplicated keys': 'dupkeys', 'typed key column holding only None after a cut': 'typednone', 'large tables': 'large', 'key names listed in another order than the columns': 'keyorder'}
 
 
 def replay(rec):
